@@ -116,7 +116,7 @@ func c04Gen(tier string, seed int64) []core.Case {
 		id := fmt.Sprintf("secp256k1/chain%d", i)
 		cs = append(cs, core.Case{ID: id, Class: id, Kind: "chain", Cost: 40, P: core.P{"curve": "secp256k1", "i": i, "len": 2}})
 	}
-	return cs
+	return runVariants(cs, 12, "reshare")
 }
 
 type reshareMon struct {
@@ -268,7 +268,11 @@ func c04Run(c core.Case, env *core.Env) core.Result {
 		old.Xi(dealer).Add(old.Xi(dealer), big1) // the deviating old member deals a share of a different key
 	}
 	newIDs := keyIDs("new", nn, curve, env.Seed)
+	defer setDefaultCurve(c.P, curve)()
 	w, err := old.ReshareWorld(env, env.Seed+int64(c.P.Int("k")), t, newIDs, nt, sim.ReshareOpts{NoProofs: c.P.Bool("noproofs"), OldN: n, NewFirst: c.P.Bool("newfirst")})
+	if w != nil {
+		w.ShareObjects = c.P.Bool("objects")
+	}
 	if err != nil {
 		r.Inconcl("cannot build the resharing session: %v", err)
 		return r
